@@ -3,7 +3,11 @@ package checks
 import (
 	"encoding/json"
 	"fmt"
+	"os"
+	"path/filepath"
+	"sort"
 	"strings"
+	"time"
 
 	"verifharness/internal/core"
 	"verifharness/internal/engine"
@@ -160,6 +164,99 @@ func knownPairFindings(c *engine.Ctx) {
 			if !same {
 				c.Fail("oracle", fmt.Sprintf("fixed finding %s has returned: the two programs disagree (%s)", k.ID, got),
 					M{"kind": "program-pair", "finding": k.ID, "witness": k.Witness, "now": got}, false)
+			}
+		}
+	}
+}
+
+// multiFileWitness: several schema files and an invocation; the finding is about the generated text.
+type multiFileWitness struct {
+	Files       map[string]string `json:"files"`
+	Args        []string          `json:"args"`
+	Cfg         *core.Cfg         `json:"cfg"`
+	Contains    []string          `json:"contains"`     // substrings the CORRECT output contains
+	NotContains []string          `json:"not_contains"` // substrings the correct output does not contain
+}
+
+func runMultiFile(w multiFileWitness) (string, error) {
+	dir, err := os.MkdirTemp("", "gjsmulti")
+	if err != nil {
+		return "", err
+	}
+	defer os.RemoveAll(dir)
+	for name, data := range w.Files {
+		fn := filepath.Join(dir, name)
+		_ = os.MkdirAll(filepath.Dir(fn), 0o755)
+		if err := os.WriteFile(fn, []byte(data), 0o644); err != nil {
+			return "", err
+		}
+	}
+	cfg := core.DefaultCfg()
+	if w.Cfg != nil {
+		cfg = *w.Cfg
+	}
+	var args []string
+	for _, a := range w.Args {
+		args = append(args, filepath.Join(dir, a))
+	}
+	res := core.RunRealFiles(cfg.GeneratorConfig("", nil), args, 20*time.Second)
+	if res.Panic != "" {
+		return "PANIC " + res.Panic, nil
+	}
+	if res.ErrKind != "" {
+		return "ERROR " + res.ErrMsg, nil
+	}
+	var names []string
+	for n := range res.Sources {
+		names = append(names, n)
+	}
+	sort.Strings(names)
+	var b strings.Builder
+	for _, n := range names {
+		b.WriteString("// FILE " + n + "\n")
+		b.Write(res.Sources[n])
+	}
+	return b.String(), nil
+}
+
+// knownMultiFileFindings replays findings of kind "generator-output".
+func knownMultiFileFindings(c *engine.Ctx) {
+	for _, k := range c.KnownFor() {
+		if k.Kind != "generator-output" {
+			continue
+		}
+		var w multiFileWitness
+		if err := json.Unmarshal(k.Witness, &w); err != nil {
+			c.Note("known finding %s: bad witness: %v", k.ID, err)
+			continue
+		}
+		out, err := runMultiFile(w)
+		if err != nil {
+			c.Note("known finding %s: %v", k.ID, err)
+			continue
+		}
+		correct := true
+		for _, s := range w.Contains {
+			if !strings.Contains(out, s) {
+				correct = false
+			}
+		}
+		for _, s := range w.NotContains {
+			if strings.Contains(out, s) {
+				correct = false
+			}
+		}
+		c.Count("known-findings", k.Status)
+		switch k.Status {
+		case "open":
+			if correct {
+				c.Note("known finding %s no longer reproduces: the generated output is now what the property demands", k.ID)
+			} else {
+				c.ReportKnown(k)
+			}
+		case "fixed":
+			if !correct {
+				c.Fail("oracle", "fixed finding "+k.ID+" has returned: "+k.What, M{"kind": "generator-output", "finding": k.ID, "witness": k.Witness, "output": clip(out, 3000)}, false)
 			}
 		}
 	}
